@@ -195,6 +195,10 @@ class Spec(object):
     def nontrivial(self, cfg, res):
         return "records" in res.flags and "events3" in res.flags
 
+    def explicit_families(self, tier):
+        # complete state-space closure of the shared small networks (the monitor judges every transition of the graph)
+        return explicit_basic(tier)
+
     def families(self, tier):
         return focused(tier) + universal.family(tier)
 
